@@ -128,14 +128,15 @@ def Sys.kpost (s : Sys) (i : Nat) (res : Int) (flags : Nat) : Sys × List String
 cancel requests at once (KC5): a request whose target is not in flight is
 answered with `-ENOENT` on the reserved `user_data` 2, a successful one
 posts nothing (`CQE_SKIP_SUCCESS`). -/
+def Sys.consumeOne (s : Sys) (e : SqEntry) : Sys :=
+  match e with
+  | .op i => { s with inflight := s.inflight ++ [i] }
+  | .cancel i =>
+    if s.inflight.contains i then s
+    else (s.postCqe ⟨.reserved 2, -ENOENT, 0⟩).1
+
 def Sys.consumeAll (s : Sys) : Sys :=
-  let s' := s.sq.foldl (fun (s : Sys) e =>
-    match e with
-    | .op i => { s with inflight := s.inflight ++ [i] }
-    | .cancel i =>
-      if s.inflight.contains i then s
-      else (s.postCqe ⟨.reserved 2, -ENOENT, 0⟩).1) s
-  { s' with sq := [] }
+  { s.sq.foldl Sys.consumeOne s with sq := [] }
 
 /-- `wake_blocked_futures` (single-threaded): wakes as many blocked futures
 as there are free submission slots, oldest first. -/
